@@ -35,6 +35,10 @@ def classify(mism):
             l0, l1 = m["a"].split("\n"), m["b"].split("\n")
             re_ord = sorted(l0) == sorted(l1)
             sig = {"oracle": "recompile", "kind": ch + ("-reordered" if re_ord else "-differs")}
+            # which top-level item of the text the first difference sits in (`import`, `type`, `func`, `fn` …)
+            it = re.search(r"\[in ([A-Za-z_]+)\]", m.get("first_difference", ""))
+            if it and ch not in ("diagnostics", "interfaces", "outcome"):
+                sig["item"] = it.group(1)
             if ch in ("diagnostics", "interfaces"):
                 d, e = next(((x, y) for x, y in zip(l0, l1) if x != y), (l0[0] if l0 else "", ""))
                 # the words the two differing lines share: names that merely swapped places drop out
@@ -64,14 +68,15 @@ def run(ctx):
     # children run concurrently with the master
     env = dict(vlib.ENV, GV_SCRATCH=os.path.join(vlib.CACHE, "scratch"), GV_VERIF=vlib.VERIF, GV_REPO=repo)
 
-    # cheap extra processes that recompile only the collection-diagnostics family: a hash-ordered diagnostic shows
-    # up as soon as two processes (two hash seeds) print different listings
+    # cheap extra processes that recompile only the collection-diagnostics and emission-collections families: a
+    # hash-ordered diagnostic / import list / declaration list shows up as soon as two processes (two hash seeds)
+    # print different texts
     ndiag = 20 if ctx.tier == "quick" else 48
 
     def child(i):
         cmd = [vlib.GV, "c13", "child", "--n", str(i), "--seed", str(ctx.seed), "--tier", ctx.tier, "--out", ctx.run_dir]
         if i > nchild:
-            cmd += ["only", "collection-diagnostics"]
+            cmd += ["only", "collection-diagnostics,emission-collections"]
         p = subprocess.run(cmd, env=env, stdout=subprocess.PIPE, stderr=subprocess.STDOUT, text=True, timeout=3000)
         return i, p.returncode, p.stdout[-1500:]
 
@@ -144,8 +149,12 @@ def run(ctx):
         for t in r[3].split(","):
             if t:
                 tagcount[t] = tagcount.get(t, 0) + 1
-        if int(r[6]) >= 2 or int(r[8]) >= 2:
+        if int(r[6]) >= 2 or int(r[8]) >= 2 or r[2] == "emission-collections":
             nontrivial.add(pid)
+        if r[2] == "emission-collections" and r[7] != "ok":
+            # the family is there to exercise the back end: a member that stops earlier exercises nothing
+            ctx.broken_ties.append(("emission-collections family", f"{pid} does not compile: outcome `{r[7]}` "
+                                    f"(gv c13 emit --n <k> prints the diagnostics)"))
     for pid, ms in mism.items():
         src = ""
         sp = os.path.join(ctx.run_dir, f"c13.src.{pid}.txt")
@@ -187,7 +196,7 @@ def run(ctx):
             continue
         cd = digests(p)
         only_family = i > nchild
-        want = set(k[0] for k in master if not only_family or k[0].startswith("cdiag-"))
+        want = set(k[0] for k in master if not only_family or k[0].startswith(("cdiag-", "emit-")))
         if set(k[0] for k in cd) != want:
             ctx.broken_ties.append(("cross-process", f"child {i} compiled a different project set"))
         for key, dg in master.items():
@@ -218,7 +227,8 @@ def run(ctx):
         "rule": "graph tie: one case = one package layout written to disk (real discover_packages + topo_sort_packages + ids of a whole "
                 "compile) or one raw PackageGraph (topo_sort_packages), compared with the model; non-trivial = some package has >= 2 imports, "
                 "distinct by layout text. Recompilation: one evaluation = one whole compile (+ separate build of every package) of a project; "
-                "non-trivial = Main has >= 2 imports or the compile reports >= 2 diagnostics, distinct by project",
+                "non-trivial = Main has >= 2 imports or the compile reports >= 2 diagnostics or the project belongs to the "
+                "emission-collections family (k >= 2 members of one collection the back end prints), distinct by project",
         "samples": samples,
         "graph_cases": shapes, "graph_outcomes": outcomes, "graph_cases_equal": n_eq, "model_diffs": len(tie_diffs),
         "projects": kinds, "project_features": dict(sorted(tagcount.items())),
